@@ -908,7 +908,13 @@ impl Formatter {
             }
             Expr::Closure(params, body) => {
                 self.writer.write("(");
-                self.format_params(params);
+                // Closure parameters are bare names; the parser records their inferred type as `_`.
+                for (i, param) in params.iter().enumerate() {
+                    if i > 0 {
+                        self.writer.write(", ");
+                    }
+                    self.writer.write(&param.node.name);
+                }
                 self.writer.write(") => ");
                 self.format_expr(&body.node);
             }
